@@ -115,9 +115,11 @@ func latencyFunc(l LatencyCfg, w *simrt.World) func(op *simos.OpRec) int64 {
 		}
 		if l.StallOp != 0 && op.Seq+1 == l.StallOp {
 			d += l.StallNs
+			w.Stalls++
 		}
 		if l.StallEvery > 0 && simrt.SplitMix(uint64(op.Seq)*2654435761+uint64(l.StallNs))%uint64(l.StallEvery) == 0 {
 			d += l.StallNs
+			w.Stalls++
 		}
 		return d
 	}
@@ -144,6 +146,15 @@ func finish(out *RunOut, w *simrt.World, res simrt.Result, p *Plan, viol *Violat
 	out.Steps += res.Steps
 	out.SimTime += res.SimTime
 	out.Switches += res.Switches
+	if w.Preemptions > 0 {
+		out.Faults["preempt"] += w.Preemptions
+	}
+	if w.Stalls > 0 {
+		out.Faults["stall"] += w.Stalls
+	}
+	if p.Sim.Latency.Kind != "" {
+		out.Faults["latency-model-runs"]++
+	}
 	out.SchedHash = out.SchedHash*1099511628211 ^ res.SchedHash
 	out.Outcome = res.Outcome.String()
 	if out.Viol == nil {
